@@ -20,6 +20,7 @@ type envEv struct {
 	TI         tokInfo `json:"ti"`
 	SigLen     int     `json:"sigLen"`
 	PayloadMap bool    `json:"payloadMap"` // the payload bytes are a single CBOR map
+	PayloadTag bool    `json:"payloadTag"` // the payload bytes are a single tagged item (left open: no verdict)
 	MinimalTag bool    `json:"minimalTag"`
 	Dec1       bool    `json:"dec1"`   // DecodeEvidenceFromCOSE succeeded
 	Dec2       bool    `json:"dec2"`   // Evidence.UnmarshalCOSE succeeded
@@ -84,6 +85,32 @@ func encElem(e *cborx.Enc, kind string, w *evWorld, cc Conc) {
 		e.Bstr([]byte{0xa0})
 	case "payload-two-maps":
 		e.Bstr(append(append([]byte{}, w.enc["cA"]...), w.enc["cA"]...))
+	case "payload-null": // a byte string whose content is the single item null
+		e.Bstr([]byte{0xf6})
+	case "payload-undef":
+		e.Bstr([]byte{0xf7})
+	case "payload-false":
+		e.Bstr([]byte{0xf4})
+	case "payload-tstr":
+		e.Bstr([]byte{0x61, 0x78})
+	case "payload-bstr":
+		e.Bstr([]byte{0x41, 0x78})
+	case "payload-map-junk": // the claims map followed by one more byte
+		e.Bstr(append(append([]byte{}, w.enc["cA"]...), 0x00))
+	case "payload-map-null":
+		e.Bstr(append(append([]byte{}, w.enc["cA"]...), 0xf6))
+	case "payload-map-break":
+		e.Bstr(append(append([]byte{}, w.enc["cA"]...), 0xff))
+	case "payload-map-trunc": // followed by a truncated head
+		e.Bstr(append(append([]byte{}, w.enc["cA"]...), 0x59, 0x01))
+	case "payload-null-map":
+		e.Bstr(append([]byte{0xf6}, w.enc["cA"]...))
+	case "payload-tagged-map": // no verdict: a tag before the map is left open
+		e.Bstr(append([]byte{0xd9, 0xd9, 0xf7}, w.enc["cA"]...))
+	case "payload-tagged-null":
+		e.Bstr([]byte{0xd9, 0xd9, 0xf7, 0xf6})
+	case "payload-truncated":
+		e.Bstr(w.enc["cA"][:len(w.enc["cA"])-1])
 	case "indef-bstr":
 		e.IndefBstr().Bstr(w.enc["cA"]).Break()
 	default:
@@ -93,7 +120,8 @@ func encElem(e *cborx.Enc, kind string, w *evWorld, cc Conc) {
 
 var elemKinds = []string{"bstr-prot", "bstr-empty", "bstr-payload", "bstr-sig", "bstr-junk", "map-empty", "map-one", "null", "undef", "uint", "nint",
 	"tstr", "arr-empty", "arr-one", "bool", "float", "tagged-bstr", "wrapped", "wrapped2", "payload-array", "payload-int", "payload-emptymap",
-	"payload-two-maps", "indef-bstr"}
+	"payload-two-maps", "indef-bstr", "payload-null", "payload-undef", "payload-false", "payload-tstr", "payload-bstr", "payload-map-junk",
+	"payload-map-null", "payload-map-break", "payload-map-trunc", "payload-null-map", "payload-tagged-map", "payload-tagged-null", "payload-truncated"}
 
 func init() {
 	drivers["ev-envelope"] = func(a *Args) {
@@ -113,6 +141,8 @@ func init() {
 			if pb, ok := payloadBytes(tok); ok {
 				if pn, perr := cborx.Parse(pb); perr == nil && pn.Major == 5 {
 					ev.PayloadMap = true
+				} else if perr == nil && pn.Major == 6 {
+					ev.PayloadTag = true
 				}
 			}
 			ev.Pan = safely(func() {
@@ -154,6 +184,18 @@ func init() {
 		}
 		for _, tag := range []int{61, 96, 97, 98, 55799, 17, 16} {
 			present("tag", build(tag, -1, std, nil))
+		}
+		// tag numbers that agree with 18 in their low byte(s), in every width that holds them
+		for _, tag := range []uint64{0x112, 0x212, 0x1012, 0xff12, 0x10012, 0x120012, 0xaabbcc12, 0x100000012, 0x1200000000, 0xffffffffffffff12, 0x1200, 0x120000} {
+			for _, wd := range []int{2, 4, 8} {
+				if wd == 2 && tag > 0xffff || wd == 4 && tag > 0xffffffff {
+					continue
+				}
+				e := &cborx.Enc{}
+				e.HeadW(6, tag, wd)
+				e.Raw(build(-1, -1, std, nil))
+				present("tag-wide", e.Bytes())
+			}
 		}
 		{ // doubly tagged
 			e := &cborx.Enc{}
